@@ -139,6 +139,69 @@ func genC12(tier string, seed uint64, emit func(string)) {
 			}
 		}
 	}
+	// ZREVRANGEBYSCORE: every pair of bounds (open, closed, infinite) x WITHSCORES x LIMIT over a set with a score tie,
+	// against the Redis definition: members with min <= score <= max in descending (score, member) order, LIMIT
+	// counted from the highest
+	type zm struct {
+		m string
+		s int
+	}
+	zs := []zm{{"a", 1}, {"b", 2}, {"c", 2}, {"d", 3}} // ascending (score, member)
+	bounds := []string{"-inf", "0", "1", "(1", "2", "(2", "3", "(3", "4", "+inf"}
+	inBound := func(score int, b string, lower bool) bool {
+		ex := strings.HasPrefix(b, "(")
+		b = strings.TrimPrefix(b, "(")
+		switch b {
+		case "-inf":
+			return lower
+		case "+inf":
+			return !lower
+		}
+		v, _ := strconv.Atoi(b)
+		if lower {
+			return score > v || (!ex && score == v)
+		}
+		return score < v || (!ex && score == v)
+	}
+	limits := [][2]int{{0, -2}, {0, 1}, {1, 2}, {0, -1}, {2, 5}, {-1, 2}, {1, 0}}
+	for _, mx := range bounds {
+		for _, mn := range bounds {
+			for _, ws := range []bool{false, true} {
+				for li, lim := range limits {
+					q := bs("ZREVRANGEBYSCORE", "z", mx, mn)
+					if ws {
+						q = append(q, []byte("WITHSCORES"))
+					}
+					var sel []zm
+					for i := len(zs) - 1; i >= 0; i-- {
+						if inBound(zs[i].s, mn, true) && inBound(zs[i].s, mx, false) {
+							sel = append(sel, zs[i])
+						}
+					}
+					if li > 0 {
+						q = append(q, []byte("LIMIT"), []byte(strconv.Itoa(lim[0])), []byte(strconv.Itoa(lim[1])))
+						switch {
+						case lim[0] < 0 || lim[0] >= len(sel):
+							sel = nil
+						default:
+							sel = sel[lim[0]:]
+							if lim[1] >= 0 && lim[1] < len(sel) {
+								sel = sel[:lim[1]]
+							}
+						}
+					}
+					want := []string{}
+					for _, e := range sel {
+						want = append(want, e.m)
+						if ws {
+							want = append(want, strconv.Itoa(e.s))
+						}
+					}
+					emit(c12Line([][][]byte{bs("ZADD", "z", "2", "c", "1", "a", "3", "d", "2", "b"), q}, "expect 1 "+arrayReply(want)))
+				}
+			}
+		}
+	}
 	// counters at the boundaries
 	for _, c := range []struct {
 		val  string
